@@ -104,6 +104,6 @@ fn main() {
     let check = Check::new("C07", "exploration");
     check.rule("operation histories (<=40 ops incl. Rebuild = same family through unions of from_set in another order, and arena gc keeping random subsets of handles) in one ZddArena and one SharedArena; invariants after every op: same reference family <=> same root for every live handle pair; every stored node (hook H1 dump) has a non-empty include-branch, strictly larger child variables, no duplicate (var,lo,hi); gc-returned handles denote the pre-gc family; iteration yields each member once in ascending element order. Non-trivial = history with a gc that dropped >=1 node and >=2 live handles denoting the same family.");
     check.assume("hook H1 (ZddArena::verif_nodes) is a faithful read-only dump of the unique table");
-    check.explore("histories", || history(40, true), 40_000, 600_000, run_history);
+    check.explore("histories", || history(40, true), 100_000, 1_000_000, run_history);
     check.finish();
 }
